@@ -231,7 +231,7 @@ package controller
 //@   ensures forall k :: old(Jlen) <= k && k < Jlen ==> Jkind[k] == K_UPDATE
 //@   ensures [C01,C09,C10,C12] forall k :: old(Jlen) <= k && k < Jlen ==> LNby[Jname[k]] != nil && clsU(LNby[Jname[k]])
 // C06: exactly n nodes end up tainted unless every node given was attempted (the only way to fall short is a failing write)
-//@   ensures [C06] !dry(c, nodeGroup) ==> len(res) == n || (forall q {elemref(nodes, q)} :: 0 <= q && q < len(nodes) ==> getSeen[nodes[q].Name])
+//@   ensures [C06,C10] !dry(c, nodeGroup) ==> len(res) == n || (forall q {elemref(nodes, q)} :: 0 <= q && q < len(nodes) ==> getSeen[nodes[q].Name])
 // C08 oldest first: no node given that was left unattempted (no fetch of it was issued) is strictly older than a node a write was sent for
 //@   ensures [C08] !dry(c, nodeGroup) ==> (forall k, q {Jname[k], elemref(nodes, q)} :: old(Jlen) <= k && k < Jlen && 0 <= q && q < len(nodes) && !getSeen[nodes[q].Name] ==> !older(nodes[q], LNby[Jname[k]]))
 //@ loop #0
@@ -240,9 +240,9 @@ package controller
 //@   invariant forall k :: 0 <= k && k < #i ==> sorted[k].node == nodes[k] && sorted[k].index == k
 //@ loop #1
 //@   invariant [C08] forall i, j :: 0 <= i && i < j && j < len(sorted) ==> !older(sorted[j].node, sorted[i].node)
-//@   invariant [C06,C08] !dry(c, nodeGroup) ==> (forall p :: 0 <= p && p < #i ==> getSeen[sorted[p].node.Name])
-//@   invariant [C06,C08] forall s string :: old(getSeen)[s] ==> getSeen[s]
-//@   invariant [C06,C08] forall q {elemref(nodes, q)} :: 0 <= q && q < len(nodes) ==> 0 <= spinv(base(sorted), q) && spinv(base(sorted), q) < len(sorted) && sorted[spinv(base(sorted), q)].index == q
+//@   invariant [C06,C08,C10] !dry(c, nodeGroup) ==> (forall p :: 0 <= p && p < #i ==> getSeen[sorted[p].node.Name])
+//@   invariant [C06,C08,C10] forall s string :: old(getSeen)[s] ==> getSeen[s]
+//@   invariant [C06,C08,C10] forall q {elemref(nodes, q)} :: 0 <= q && q < len(nodes) ==> 0 <= spinv(base(sorted), q) && spinv(base(sorted), q) < len(sorted) && sorted[spinv(base(sorted), q)].index == q
 //@   invariant [C08] !dry(c, nodeGroup) ==> (forall k, p {Jname[k], elemref(sorted, p)} :: old(Jlen) <= k && k < Jlen && #i <= p && p < len(sorted) ==> !older(sorted[p].node, LNby[Jname[k]]))
 //@   modifies elems(taintedIndices), nodeGroup.taintTracker, elems(nodeGroup.taintTracker)
 //@   invariant base(taintedIndices) == entry(base(taintedIndices)) && cap(taintedIndices) == n && off(taintedIndices) == 0
